@@ -349,6 +349,32 @@ pub proof fn lemma_tz_irrelevant(mode: RoundingMode, sign: Sign, l: u8, d: u8, t
     ensures round_pair_spec(mode, sign, l, d, tz) == round_pair_spec(mode, sign, l, d, false)
 {}
 
+/// the printed characters without the decimal point (which sits ts+1 characters from the end when ts > 0)
+pub open spec fn strip_point(out: Seq<u8>, ts: int) -> Seq<u8> {
+    if ts == 0 { out } else { out.subrange(0, out.len() - ts - 1) + out.subrange(out.len() - ts, out.len() as int) }
+}
+/// `out` is "III.FFF" with exactly ts fractional digits (no point when ts == 0), at least one integer digit, and its
+/// digits read as the integer v  (i.e. the printed number is v * 10^-ts)
+pub open spec fn withint_render(out: Seq<u8>, ts: int, v: int) -> bool {
+    &&& out.len() >= (if ts == 0 { 1int } else { ts + 2 })
+    &&& (ts > 0 ==> out[out.len() - ts - 1] == 46u8)
+    &&& ascii_digits(strip_point(out, ts))
+    &&& dba(strip_point(out, ts)) == v
+}
+pub proof fn lemma_dba_append_zeros(s: Seq<u8>, t: Seq<u8>, z: int)
+    requires ascii_digits(s), z >= 0, t.len() == s.len() + z, t.subrange(0, s.len() as int) =~= s,
+             forall|i: int| s.len() <= i < t.len() ==> t[i] == 48u8
+    ensures ascii_digits(t), dba(t) == dba(s) * pow10(z)
+{
+    assert forall|i: int| 0 <= i < t.len() implies 48 <= (#[trigger] t[i]) && t[i] <= 57 by {
+        if i < s.len() { assert(t[i] == t.subrange(0, s.len() as int)[i]); }
+    }
+    let ut = unascii(t);
+    lemma_dbe_trailing_zeros(ut, z);
+    assert(ut.subrange(0, ut.len() - z) =~= unascii(s)) by {
+        assert forall|i: int| 0 <= i < s.len() implies ut[i] == unascii(s)[i] by { assert(t[i] == t.subrange(0, s.len() as int)[i]); }
+    }
+}
 /// rendering of a value v in {0, 1} units of 10^-ts with no integer part: "v" when ts == 0, else "0." + zeros + v
 pub open spec fn noint_small_render(out: Seq<u8>, ts: int, v: int) -> bool {
     &&& 0 <= v <= 1
